@@ -562,10 +562,39 @@ func runHistory(payload string) string {
 		}
 		outs = append(outs, "m:"+hexOrDash(mine))
 		good = append(good, i)
+		if fmtc != "j" && i%2 == 0 {
+			// a poison item follows: [1,"x"] / {"a":1,"b":"x"}, read below into []int64 / map[string]int64.  That call
+			// fails on the item's LAST byte, so the stream is exactly at the next item while the failed call
+			// was still inside a container
+			if i%4 == 0 {
+				stream.Write([]byte{0x82, 0x01, 0x61, 0x78})
+			} else {
+				stream.Write([]byte{0xa2, 0x61, 0x61, 0x01, 0x61, 0x62, 0x61, 0x78})
+			}
+			good = append(good, -1-i)
+		}
 	}
 	// (2) long-lived unmarshaller over the whole stream
 	u := refmt.NewUnmarshallerAtlased(do, bytes.NewReader(stream.Bytes()), atl)
 	for _, i := range good {
+		if i < 0 { // poison item: the call must fail, and must not disturb the calls after it
+			var e error
+			var p bool
+			if (-1-i)%4 == 0 {
+				var bad []int64
+				e, p = safely(func() error { return u.Unmarshal(&bad) })
+			} else {
+				var bad map[string]int64
+				e, p = safely(func() error { return u.Unmarshal(&bad) })
+			}
+			if p {
+				return "panic"
+			}
+			if e == nil {
+				same = false
+			}
+			continue
+		}
 		it := its[i]
 		target := reflect.New(it.t.rt)
 		e, p := safely(func() error { return u.Unmarshal(target.Interface()) })
